@@ -1,6 +1,7 @@
 import CoclsModel.StorageProofs
 import CoclsModel.StorageProofsB
 import CoclsModel.StorageMtProofs
+import CoclsModel.StorageSelProofs
 /-!
 # C19 — coroutine storage policies give every frame exclusive, correctly freed memory
 
@@ -611,3 +612,171 @@ example : ((run (init { pol := Policy.reusable }) [Op.alloc 0 40, Op.alloc 0 48]
     ∧ (run (init { pol := Policy.reusable }) [Op.alloc 0 40, Op.alloc 0 48]).heap.live = [(1, 48)] := by decide
 
 end Cocls.Storage
+
+/-! ## which argument of the coroutine selects the storage
+
+`CoclsModel/StorageSel.lean`: `custom_allocator_base`'s overload set `operator new(sz, Allocator &, …)` /
+`operator new(sz, This &, Allocator &, …)` as a function `select` of the coroutine's argument list (`stor k`: an lvalue
+of exactly the storage type, `derived k`: an object of a class derived from it — `class connection: reusable_storage`,
+`reusable_storage_mtsafe`, `promise_extra_storage` —, `other`), and a machine with any number of `reusable_storage`
+objects on which coroutines of *every* signature are created and completed.  `Reachable s` = some list of such
+operations leads from the initial state to `s`; `s.ok` = the caller never created a coroutine whose selected storage
+still held a live frame (the one-live-frame contract of `reusable_storage`). -/
+namespace Cocls.StorageSel
+open Cocls.Storage (Blk Heap nodup_map_inj mem_ids_of_mem_live)
+
+def Reachable (s : State) : Prop := ∃ ops, s = run init ops
+
+theorem reachable_inv {s : State} (h : Reachable s) : Inv s := by
+  obtain ⟨ops, rfl⟩ := h
+  exact inv_run inv_init ops
+
+/-- **The selection is the documented one, for every signature.**  `rest` is arbitrary: arguments from the third
+position on never matter.
+* free function with the storage first (1, 2); member function / lambda of a class unrelated to the storage type: the
+  first declared parameter, be it the storage itself or an object derived from it (3, 4);
+* the object of a member coroutine (or a leading argument) merely *derives* from the storage type and a storage is
+  passed explicitly right behind it: the explicit storage is used, the object's own block is left alone (5);
+  without an explicit storage the object's own storage is used (6, 7);
+* two explicit storages in the first two positions: the second (8: both overloads are exact, the one with `This &` is
+  more specialised); two derived objects, or nothing convertible in the first two positions: does not compile (9, 10). -/
+theorem c19_select_documented (rest : List Arg) (a b d e : Nat) :
+    select [Arg.stor a] = some a ∧
+    (∀ x, (∀ c, x ≠ Arg.stor c) → select (Arg.stor a :: x :: rest) = some a) ∧
+    select (Arg.other :: Arg.stor a :: rest) = some a ∧
+    select (Arg.other :: Arg.derived d :: rest) = some d ∧
+    select (Arg.derived d :: Arg.stor a :: rest) = some a ∧
+    select [Arg.derived d] = some d ∧
+    select (Arg.derived d :: Arg.other :: rest) = some d ∧
+    select (Arg.stor a :: Arg.stor b :: rest) = some b ∧
+    select (Arg.derived d :: Arg.derived e :: rest) = none ∧
+    select (Arg.other :: Arg.other :: rest) = none := by
+  refine ⟨rfl, ?_, rfl, rfl, rfl, rfl, rfl, rfl, rfl, rfl⟩
+  intro x hx
+  cases x with
+  | stor c => exact absurd rfl (hx c)
+  | derived c => rfl
+  | other => rfl
+
+/-- the selected storage is always one that was passed in the first or second position (as the storage itself or as an
+object derived from it) — never a later argument, never anything that was not passed -/
+theorem c19_select_position (args : List Arg) (k : Nat) (h : select args = some k) :
+    args[0]? = some (Arg.stor k) ∨ args[0]? = some (Arg.derived k) ∨ args[1]? = some (Arg.stor k) ∨ args[1]? = some (Arg.derived k) := by
+  match args, h with
+  | [Arg.stor a], h => simp [select] at h; simp [h]
+  | [Arg.derived a], h => simp [select] at h; simp [h]
+  | Arg.stor a :: Arg.stor b :: _, h => simp [select] at h; simp [h]
+  | Arg.stor a :: Arg.derived b :: _, h => simp [select] at h; simp [h]
+  | Arg.stor a :: Arg.other :: _, h => simp [select] at h; simp [h]
+  | Arg.derived a :: Arg.stor b :: _, h => simp [select] at h; simp [h]
+  | Arg.derived a :: Arg.derived b :: _, h => simp [select] at h
+  | Arg.derived a :: Arg.other :: _, h => simp [select] at h; simp [h]
+  | Arg.other :: Arg.stor b :: _, h => simp [select] at h; simp [h]
+  | Arg.other :: Arg.derived b :: _, h => simp [select] at h; simp [h]
+  | Arg.other :: Arg.other :: _, h => simp [select] at h
+  | [Arg.other], h => simp [select] at h
+  | [], h => simp [select] at h
+
+/-- **Every frame lives in the storage the API selects for it**: for every sequence of coroutine creations (any
+signatures, any objects, any frame sizes), completions and storage destructions that respects the contract, every live
+frame was served by the object `select` names for its arguments, sits in the block that object currently owns, that
+block is live and at least as large as the frame; a frame without a block has size 0. -/
+theorem c19_sel_frame_in_selected_storage {s : State} (h : Reachable s) (hok : s.ok = true) :
+    ∀ f ∈ s.frames, select f.args = some f.obj ∧ f.blk = ptrBlk (s.ptr f.obj) ∧ f.sz ≤ s.cap f.obj ∧
+      (∀ b, f.blk = Blk.heap b → (b, s.cap f.obj) ∈ s.heap.live) ∧ (f.blk = Blk.null → f.sz = 0) := by
+  intro f hf
+  have hi := reachable_inv h
+  obtain ⟨hb, hsz⟩ := hi.home hok f hf
+  refine ⟨hi.sel f hf, hb, hsz, ?_, ?_⟩
+  · intro b hbb
+    rw [hb] at hbb
+    cases hp : s.ptr f.obj with
+    | none => simp [hp, ptrBlk] at hbb
+    | some p =>
+      simp only [hp, ptrBlk] at hbb
+      injection hbb with hbb
+      subst hbb
+      exact hi.ptr_live f.obj p hp
+  · intro hn
+    rw [hb] at hn
+    cases hp : s.ptr f.obj with
+    | none => have := hi.ptr_none f.obj hp; omega
+    | some p => simp [hp, ptrBlk] at hn
+
+/-- **Two live frames never overlap**, whatever the signatures of their coroutines: two different live frames were
+served by different storage objects and do not share a heap block. -/
+theorem c19_sel_exclusive {s : State} (h : Reachable s) (hok : s.ok = true) :
+    ∀ f ∈ s.frames, ∀ g ∈ s.frames, f ≠ g → f.obj ≠ g.obj ∧ ∀ b, f.blk = Blk.heap b → g.blk ≠ Blk.heap b := by
+  intro f hf g hg hne
+  have hi := reachable_inv h
+  have hobj : f.obj ≠ g.obj := fun e => hne (nodup_map_inj (hi.one hok) hf hg e)
+  refine ⟨hobj, ?_⟩
+  intro b hfb hgb
+  have h1 := (hi.home hok f hf).1
+  have h2 := (hi.home hok g hg).1
+  rw [hfb] at h1
+  rw [hgb] at h2
+  cases hp : s.ptr f.obj with
+  | none => simp [hp, ptrBlk] at h1
+  | some p =>
+    cases hq : s.ptr g.obj with
+    | none => simp [hq, ptrBlk] at h2
+    | some q =>
+      simp only [hp, hq, ptrBlk] at h1 h2
+      injection h1 with h1
+      injection h2 with h2
+      exact hobj (hi.ptr_inj f.obj g.obj b (by rw [hp, h1]) (by rw [hq, h2]))
+
+/-- **Released exactly once, nothing leaked** — with or without the contract: no block is deleted twice, a deleted
+block is not live, and every live block is the block of exactly one storage object. -/
+theorem c19_sel_freed_once {s : State} (h : Reachable s) (b : Nat) :
+    s.heap.dels.count b ≤ 1 ∧ (b ∈ s.heap.dels → b < s.heap.next ∧ b ∉ s.heap.ids) ∧
+    (b ∈ s.heap.ids → ∃ k, s.ptr k = some b ∧ ∀ j, s.ptr j = some b → j = k) := by
+  have hi := reachable_inv h
+  have h1 := hi.once b
+  refine ⟨hi.once.dels_le_one b, ?_, ?_⟩
+  · intro hm
+    have h2 : 0 < s.heap.dels.count b := List.count_pos_iff.mpr hm
+    constructor
+    · split at h1 <;> omega
+    · intro hid
+      have h3 : 0 < s.heap.ids.count b := List.count_pos_iff.mpr hid
+      split at h1 <;> omega
+  · intro hid
+    obtain ⟨k, hk⟩ := hi.owned b hid
+    exact ⟨k, hk, fun j hj => hi.ptr_inj j k b hj hk⟩
+
+/-- **No heap call after warm-up, per selected object**: a coroutine whose selected storage already has room for its
+frame causes no `operator new` / `operator delete`. -/
+theorem c19_sel_warm (s : State) (args : List Arg) (k sz : Nat) (hs : select args = some k) (hc : sz ≤ s.cap k) :
+    (stepCoro s args sz).1.heap = s.heap := by
+  have : ¬ sz > s.cap k := by omega
+  simp [stepCoro, hs, rsAlloc, this]
+
+/-! non-vacuity: the configuration of the seeded change — an object that owns the storage of its long-running member
+coroutine by inheritance (object 2), a second member coroutine that receives an explicit storage (object 0) while the
+first is alive: contract respected, two frames, two objects, two blocks. -/
+example : Reachable (run init [Op.coro [Arg.derived 2, Arg.other] 104, Op.coro [Arg.derived 2, Arg.stor 0, Arg.other] 112]) :=
+  ⟨_, rfl⟩
+example : (run init [Op.coro [Arg.derived 2, Arg.other] 104, Op.coro [Arg.derived 2, Arg.stor 0, Arg.other] 112]).ok = true
+    ∧ (run init [Op.coro [Arg.derived 2, Arg.other] 104, Op.coro [Arg.derived 2, Arg.stor 0, Arg.other] 112]).frames.map
+        (fun f => (f.obj, f.blk)) = [(2, Blk.heap 0), (0, Blk.heap 1)] := by decide
+
+/-- "the first argument that converts to the storage" — the selection rule of the seeded change -/
+def selectFirstConvertible : List Arg → Option Nat
+  | Arg.stor a :: _ => some a
+  | Arg.derived a :: _ => some a
+  | Arg.other :: r => selectFirstConvertible r
+  | [] => none
+
+/-- … differs from the overload set exactly where it matters: the explicit storage is ignored in favour of the object's
+own block, in which (here) the first coroutine is still alive -/
+example : selectFirstConvertible [Arg.derived 2, Arg.stor 0, Arg.other] = some 2
+    ∧ select [Arg.derived 2, Arg.stor 0, Arg.other] = some 0 := by decide
+
+/-- what the contract is for: a second coroutine on an occupied storage gets the same block -/
+example : (run init [Op.coro [Arg.stor 0] 104, Op.coro [Arg.other, Arg.stor 0] 96]).ok = false
+    ∧ (run init [Op.coro [Arg.stor 0] 104, Op.coro [Arg.other, Arg.stor 0] 96]).frames.map (·.blk) = [Blk.heap 0, Blk.heap 0] := by
+  decide
+
+end Cocls.StorageSel
